@@ -147,7 +147,14 @@ def _bb(e):
         if callee in ('core::cmp::PartialEq::ne', '<bitboard::BitBoard as core::cmp::PartialEq>::ne') and \
                 e[3] and 'bitboard::BitBoard' in str(e[3][0]):
             return ('bbne',) + tuple(sorted(args, key=_key))
-        return ('call', callee, tuple(args), e[3])
+        return ('call', callee, tuple(args), ())     # generic arguments are dropped in the canonical form
+    if t == 'mem' and e[1][0] == 'h':
+        # dereference of a reference returned by an accessor: the accessor mapping already yields the value
+        return _bb(e[1][1])
+    if t == 'after' and len(e) >= 6 and e[5] == 1 and 'bitboard::BitBoard as core::ops::bit::Bit' in e[2] and e[2].endswith('_assign'):
+        op = {'bitand_assign': '&', 'bitor_assign': '|', 'bitxor_assign': '^'}.get(e[2].rsplit('::', 1)[1])
+        if op and len(e[4]) == 2:
+            return mk(op, [_bb(e[3]), _bb(e[4][1])])
     if t == 'field':
         base = _bb(e[1])
         return fstate(base, e[2])
